@@ -149,6 +149,35 @@ func (v *Verifier) VerifyFunc(fn *ssa.Function, opts UnitOpts, so *SolveOpts) *U
 			break
 		}
 	}
+	// static frame obligations (`nowrite`): discharged by the type-based effect analysis over the
+	// SSA of the function and everything it can call (no SMT involved)
+	if u.C != nil && len(u.C.NoWrite) > 0 && u.Refused == "" {
+		eff := v.effectsOf(fn, map[*ssa.Function]bool{})
+		for _, k := range u.C.NoWrite {
+			ok := !eff.all && !eff.heaps[k]
+			goal := False
+			desc := "no store, append, copy or map update anywhere in this function or its callees targets " + k
+			if ok {
+				goal = True
+			} else if eff.all {
+				desc += " (an unknown callee or function value may write anything)"
+			}
+			name := fmt.Sprintf("%s#frame.static.%s", shortKey(fnKey(fn)), sanitize(k))
+			o := &Obligation{Name: name, Kind: "frame", Func: fnKey(fn), Desc: desc}
+			q := &Query{Goal: goal}
+			if ok {
+				q.Trivial = true
+				q.Result = "trivial"
+				q.Backend = "effects"
+			} else {
+				q.Result = "sat"
+				q.Backend = "effects"
+			}
+			o.Queries = []*Query{q}
+			u.Obls[name] = o
+			u.Ord = append(u.Ord, name)
+		}
+	}
 	res.Unit = u
 	res.Refused = u.Refused
 	if u.Refused == "" && len(u.W.Unsup) > 0 {
